@@ -172,7 +172,8 @@ type rawRecvCase struct {
 	PayloadSeed int64     `json:"payload_seed"`
 	Carrier     string    `json:"carrier"`
 	Block       int       `json:"block"`
-	ReadBuffer  int       `json:"set_read_buffer,omitempty"`
+	SetRB       bool      `json:"calls_set_read_buffer,omitempty"`
+	ReadBuffer  int       `json:"set_read_buffer"` // ≤ 0: unlimited; below the block size: the block size applies
 	ReaderLate  bool      `json:"reader_starts_after_steps,omitempty"`
 	Steps       []rawStep `json:"steps"`
 	End         string    `json:"end"` // peer-close | lib-close
@@ -220,18 +221,29 @@ func genRawRecv(r *rand.Rand) *rawRecvCase {
 	if r.Intn(5) != 0 {
 		final = live[r.Intn(len(live))]
 	}
-	if final == "oversize" {
-		rc.ReadBuffer = rc.Block * (1 + r.Intn(3))
-		rc.ReaderLate = true
-	}
 	budget := 1 << 30
-	if rc.ReaderLate {
+	nvalid := 1 + r.Intn(8)
+	switch {
+	case final == "oversize":
+		rc.SetRB, rc.ReaderLate = true, true
+		limit := rc.Block * (1 + r.Intn(3))
+		rc.ReadBuffer = limit
+		if r.Intn(3) == 0 {
+			// a value below the block size is documented to mean the block size
+			rc.ReadBuffer = []int{1, rc.Block / 2, rc.Block - 1}[r.Intn(3)]
+			limit = rc.Block
+		}
 		// The size check may count base64 padding as payload: stay three bytes
 		// clear of the limit with what must be accepted, and go at least one byte
 		// beyond it with what must be refused.
-		budget = rc.ReadBuffer - 3
+		budget = limit - 3
+	case r.Intn(3) == 0:
+		// "If max is zero or less buffer growth is not limited": nobody reads
+		// while several blocks arrive, and every one must be taken
+		rc.SetRB, rc.ReaderLate = true, true
+		rc.ReadBuffer = []int{0, -1, -rc.Block}[r.Intn(3)]
+		nvalid = 4 + r.Intn(8)
 	}
-	nvalid := 1 + r.Intn(8)
 	rc.EmptyPacket = r.Intn(8) == 0
 	empty := r.Intn(nvalid)
 	for i := 0; i < nvalid; i++ {
@@ -368,8 +380,14 @@ func execRawRecv(c *core.Case, rc *rawRecvCase) {
 	if conn == nil {
 		return
 	}
-	if rc.ReadBuffer > 0 {
+	if rc.SetRB {
 		conn.SetReadBuffer(rc.ReadBuffer)
+		c.Count("set_read_buffer_streams", 1)
+		if rc.ReadBuffer <= 0 {
+			c.Count("set_read_buffer_unlimited", 1)
+		} else if rc.ReadBuffer < rc.Block {
+			c.Count("set_read_buffer_below_block", 1)
+		}
 	}
 	var rd *reader
 	if !rc.ReaderLate {
